@@ -115,7 +115,7 @@ Record mount_facts (b : block) (id idx lba nb : N) (v : vol) : Prop := mk_mount_
           lba + le16 b 48 < U32 /\ v_root_cluster v = le32 b 44 /\ v_name v = slice b 71 11 /\
           exists fc nx,
             v_free v = (if fc =? 4294967295 then None else Some fc) /\
-            v_next_free v = (if (nx =? 4294967295) || (nx =? 0) || (nx =? 1) then None else Some nx);
+            v_next_free v = (if (nx =? 4294967295) || (nx =? 0) || (nx =? 1) || (v_clusters v + 2 <=? nx) then None else Some nx);
   (* the refusals added by the repairs D35-D37 *)
   mf_reserved : 1 <= le16 b 14;
   mf_nfats : 1 <= get8 b 16;
@@ -520,13 +520,14 @@ Proof.
     destruct (N.eqb_spec nx 4294967295) as [A|A]; [discriminate Ec|].
     destruct (N.eqb_spec nx 0) as [B|B]; [discriminate Ec|].
     destruct (N.eqb_spec nx 1) as [C|C]; [discriminate Ec|].
+    destruct (N.leb_spec (v_clusters v + 2) nx) as [D|D]; [discriminate Ec|].
     cbn [orb] in Ec. inversion Ec. lia.
   - destruct (mf_16 _ _ _ _ _ _ MF E32) as (_ & _ & _ & _ & En & _). congruence.
 Qed.
 
 Theorem mount_hint_range id idx lba nb s v s' : parse_volume id idx lba nb s = (Ok v, s') ->
   (v_fat32 v = false -> v_free v = None /\ v_next_free v = None) /\
-  (forall c, v_next_free v = Some c -> 2 <= c /\ c <> 4294967295) /\
+  (forall c, v_next_free v = Some c -> 2 <= c < v_clusters v + 2) /\
   (forall n, v_free v = Some n -> n <> 4294967295).
 Proof.
   intros H. pose proof (parse_volume_facts _ _ _ _ _ _ _ H) as MF.
@@ -538,6 +539,7 @@ Proof.
       destruct (N.eqb_spec nx 4294967295) as [A|A]; [discriminate Ec|].
       destruct (N.eqb_spec nx 0) as [B|B]; [discriminate Ec|].
       destruct (N.eqb_spec nx 1) as [C|C]; [discriminate Ec|].
+      destruct (N.leb_spec (v_clusters v + 2) nx) as [D|D]; [discriminate Ec|].
       cbn [orb] in Ec. inversion Ec. lia.
     + destruct (mf_16 _ _ _ _ _ _ MF E32) as (_ & _ & _ & _ & En & _). congruence.
   - intros n En. destruct (v_fat32 v) eqn:E32.
@@ -621,6 +623,7 @@ Proof.
       destruct (N.eqb_spec nx 4294967295) as [A|A]; [discriminate Ec|].
       destruct (N.eqb_spec nx 0) as [B|B]; [discriminate Ec|].
       destruct (N.eqb_spec nx 1) as [C1|C1]; [discriminate Ec|].
+      destruct (N.leb_spec (v_clusters v + 2) nx) as [D|D]; [discriminate Ec|].
       cbn [orb] in Ec. inversion Ec. lia.
     + destruct (mf_16 _ _ _ _ _ _ MF E32) as (_ & _ & _ & _ & En & _). congruence.
 Qed.
@@ -805,14 +808,14 @@ Example mount_vol_ok_entries_refused :
   fst (parse_volume 7 0 2048 0 (dev [(2048, wit_entries); (2049, no_info)])) = Err FormatError.
 Proof. vm_compute. split; reflexivity. Qed.
 
-(* ---- the stored hints are whatever the information sector says: a free count and a
-   next-free hint far beyond the 137221 clusters of the volume are accepted (hint_ok holds:
-   the hint is >= 2; users of the hint must range-check it) ---- *)
+(* ---- a free count far beyond the 137221 clusters of the volume is accepted as it is (the
+   allocator copes: PrCount stale-count lemmas); a next-free hint beyond the last cluster is
+   dropped at mount (D40, repaired: before, it stayed in memory and every flush wrote it back) ---- *)
 Definition ex_boot32 : block := mk_boot 8 32 2 0 1100000 0 1100 2 1.
 Example mount_stale_hint :
   match parse_volume 7 0 2048 1100000 (dev [(2048, ex_boot32); (2049, mk_info 4000000000 4000000000)]) with
   | (Ok v, _) =>
-      v_clusters v = 137221 /\ v_free v = Some 4000000000 /\ v_next_free v = Some 4000000000 /\
+      v_clusters v = 137221 /\ v_free v = Some 4000000000 /\ v_next_free v = None /\
       mount_checksb ex_boot32 v = (true, true, true, true)
   | _ => False
   end.
